@@ -7,6 +7,7 @@ package main
 // run, equal to the Lean model), then lets a fresh child resume to the tip and compares again.
 
 import (
+	"time"
 	"database/sql"
 	"sync"
 	"encoding/json"
@@ -54,7 +55,31 @@ func childSync(args []string) {
 		Wrap.FailAt[*failAt] = true
 	}
 	d.Start()
-	synced, msg := d.StepTo(uint32(*upto))
+	var synced int64
+	var msg string
+	if *failAt > 0 {
+		// a failed statement fails the block; the daemon is expected to retry it: wait for the tip
+		// (or a crash, or 60 s) whatever is logged meanwhile
+		fake.SetTip(uint32(*upto))
+		deadline := time.Now().Add(60 * time.Second)
+		for {
+			synced = CommittedSynced(d.DBPath)
+			if synced >= int64(*upto) {
+				break
+			}
+			if p := d.Panicked(); p != "" {
+				msg = "panic: " + p
+				break
+			}
+			if time.Now().After(deadline) {
+				msg = "timeout: " + theHook.Last()
+				break
+			}
+			time.Sleep(2 * time.Millisecond)
+		}
+	} else {
+		synced, msg = d.StepTo(uint32(*upto))
+	}
 	say("child: synced=%d msg=%q statements=%d", synced, msg, Wrap.Count())
 	d.Stop()
 	if *stmtLog != "" {
@@ -340,6 +365,67 @@ func scenCrash(rep *Report, tier string, seed int64) {
 			}
 			if len(rep.Samples) < 4 {
 				rep.Sample(map[string]interface{}{"kill_before_statement": n, "kind": st.Kind, "sql": st.SQL, "site": st.Site, "synced_after_kill": k})
+			}
+		}()
+	}
+	wg.Wait()
+	// "… or a block fails at any instant": instead of a kill, one statement of a block transaction
+	// fails once (first and last write, a random one, COMMIT itself). The block is rolled back and
+	// retried; resumed to the tip the ledger — including one version row per height, no gaps — must
+	// be the uninterrupted one.
+	var failPts []int
+	failSpan := func(sp txSpan) {
+		failPts = append(failPts, sp.begin+1, sp.commit-1, sp.commit)
+		if sp.commit-sp.begin > 2 {
+			failPts = append(failPts, sp.begin+1+r.Intn(sp.commit-sp.begin-1))
+		}
+	}
+	for _, h := range []uint32{s.Acts.DevRewards, 144, s.Acts.V202} {
+		if sp, ok := spanOf(h); ok {
+			failSpan(sp)
+		}
+	}
+	nf := 3
+	if tier == "thorough" {
+		nf = 40
+	}
+	for i := 0; i < nf && len(spans) > 0; i++ {
+		failSpan(spans[r.Intn(len(spans))])
+	}
+	seenF := map[int]bool{}
+	for _, n := range failPts {
+		n := n
+		if n < 1 || n > ref.Total || seenF[n] {
+			continue
+		}
+		seenF[n] = true
+		wg.Add(1)
+		sem <- struct{}{}
+		go func() {
+			defer wg.Done()
+			defer func() { <-sem }()
+			cdir, _ := ioutil.TempDir(dir, "f")
+			defer os.RemoveAll(cdir)
+			code, out := runChild("child-sync", "-chain", ref.ChainFn, "-dir", cdir, "-failat", fmt.Sprint(n), "-upto", fmt.Sprint(tip))
+			st := stmtKind[n]
+			final, derr := DumpDB(filepath.Join(cdir, "sql.db.v4"))
+			mu.Lock()
+			defer mu.Unlock()
+			rep.Case(fmt.Sprintf("fail|%s|%s", st.Kind, st.Site), true)
+			rep.Count("fail:" + st.Kind)
+			what := fmt.Sprintf("statement %d (%s %q at %s) failing once", n, st.Kind, st.SQL, st.Site)
+			if code != 0 || derr != nil {
+				path := WriteReplay(rep.Property, "crash-fail", Replay{Property: rep.Property, Scenario: "crash", Seed: seed, Setup: s,
+					What: "after " + what + " the daemon does not reach the tip", Detail: []string{out, fmt.Sprint(derr)}, Blocks: ChainJSON(ref.Chain), Extra: map[string]interface{}{"fail_statement": n}})
+				rep.Violate("crash:failed-block-not-retried:"+st.Kind, fmt.Sprintf("%s: %.300s", what, out), path)
+				return
+			}
+			if diff := FirstDiff(dropBackfill(final), dropBackfill(ref.Dumps[int64(tip)])); diff != "" {
+				path := WriteReplay(rep.Property, "crash-fail", Replay{Property: rep.Property, Scenario: "crash", Seed: seed, Setup: s,
+					What: "after " + what + " the ledger at the tip differs from the uninterrupted run", Detail: []string{diff}, Blocks: ChainJSON(ref.Chain), Extra: map[string]interface{}{"fail_statement": n}})
+				// (the signature names the call path: everything under NullifyBurnAddress is one call site,
+				// whose caller discards the error — C10's known finding, seen from here)
+				rep.Violate("crash:failed-block-differs:"+shortPath(st.Path), what+": "+diff, path)
 			}
 		}()
 	}
